@@ -35,6 +35,15 @@ def raw32_inputs(rng, n):
     if c == 3: return [rng.bits(32) for _ in range(n)]
     if c == 4: return [rng.choice([0xFFFFFFFF, 0xFFFFFFFE, rng.bits(32) | 0xFFFF0000]) for _ in range(n)]
     return [rng.choice([0, rng.bits(32)]) for _ in range(n)]
+# the 4x64 scalar multiplication once more in bind style, and its callers translated as calls (composition)
+K64_FUNCS = [dict(fn='secp256k1_scalar_check_overflow', short='scalar_check_overflow', key='k64_check_overflow'),
+             dict(fn='secp256k1_scalar_mul_512', short='scalar_mul_512b', key='scalar_mul_512b', style='bind'),
+             dict(fn='secp256k1_scalar_sqr_512', short='scalar_sqr_512b', key='scalar_sqr_512b', style='bind'),
+             dict(fn='secp256k1_scalar_reduce_512', short='scalar_reduce_512', key='k64_reduce_512', style='bind', deps=['k64_check_overflow'], inl=['secp256k1_scalar_reduce']),
+             dict(fn='secp256k1_scalar_mul', short='scalar_mul', key='scalar_mul', style='bind', cps=['scalar_mul_512b', 'k64_reduce_512']),
+             dict(fn='secp256k1_scalar_sqr', short='scalar_sqr', key='scalar_sqr', style='bind', cps=['scalar_sqr_512b', 'k64_reduce_512'])]
+K64_PROOFS = [('scalar_mul_512b', 'Kernel/ScalarMul4x64.vo', 'scalar_mul_512b_wp'), ('scalar_sqr_512b', 'Kernel/ScalarMul4x64.vo', 'scalar_sqr_512b_wp'),
+              ('scalar_mul', 'Kernel/ScalarMul.vo', 'scalar_mul_correct'), ('scalar_sqr', 'Kernel/ScalarMul.vo', 'scalar_sqr_correct')]
 PROOFS = {'secp256k1_fe_mul_inner': ('Kernel/Field5x52.vo', 'fe_mul_inner_correct'),
           'secp256k1_fe_sqr_inner': ('Kernel/Field5x52Sqr.vo', 'fe_sqr_inner_correct')}
 # proofs over the regenerated branch-free primitives: (function, .vo, theorem)
@@ -97,7 +106,7 @@ def limb_cases(rng, n, nin):
 RAW_SHAPES = {   # input shapes of the raw ops: S scalar limbs (4 x u64), F field limbs (5), T storage limbs (4), I flag, M magnitude, P non-negative int
  'scalar_is_zero': 'S', 'scalar_cmov': 'SSI', 'fe_impl_cmov': 'FFI', 'fe_storage_cmov': 'TTI', 'int_cmov': 'PPI', 'scalar_check_overflow': 'S',
  'scalar_is_high': 'S', 'scalar_cond_negate': 'sI', 'scalar_negate': 's', 'fe_impl_normalize': 'F', 'fe_impl_normalize_weak': 'F',
- 'fe_impl_normalizes_to_zero': 'F', 'fe_impl_negate_unchecked': 'fM', 'fe_impl_add': 'ff', 'fe_impl_half': 'f', 'fe_impl_is_odd': '1', 'scalar_mul_512': 'SS', 'scalar_sqr_512': 'S', 'scalar_reduce_512': 'SS'}
+ 'fe_impl_normalizes_to_zero': 'F', 'fe_impl_negate_unchecked': 'fM', 'fe_impl_add': 'ff', 'fe_impl_half': 'f', 'fe_impl_is_odd': '1', 'scalar_mul_512': 'SS', 'scalar_sqr_512': 'S', 'scalar_reduce_512': 'SS', 'scalar_mul_512b': 'SS', 'scalar_sqr_512b': 'S', 'scalar_mul': 'SS', 'scalar_sqr': 'S'}
 N_LIMBS = [0xBFD25E8CD0364141, 0xBAAEDCE6AF48A03B, 0xFFFFFFFFFFFFFFFE, 0xFFFFFFFFFFFFFFFF]
 def raw_inputs(rng, shape):
     v = []
@@ -175,6 +184,18 @@ def kernel_obligations(chk):
         built = os.path.exists(vop) and os.path.getmtime(vop) >= os.path.getmtime(gv)
         chk.obligation('kernel theorem %s over regenerated %s' % (thm, fn), built, log2[-3000:])
         if not built: search_failing_input(chk, thm)
+    # the default-configuration scalar multiplication in bind style and its callers (composition)
+    k64 = regenerate(K64_FUNCS)
+    for key, (ok, msg) in k64.items():
+        if key.startswith('k64_'): continue      # the same translations as above, listed again only as callees
+        chk.obligation('translate %s (bind style / calls kept) from the working tree' % key, ok, msg)
+    tg4 = sorted(set(vo for key, vo, thm in K64_PROOFS if k64.get(key, (False,))[0]))
+    rc4, log4 = vlib.coq_make(tg4, timeout=int(os.environ.get('VERIF_KERNEL_TIMEOUT', '480')))
+    for key, vo, thm in K64_PROOFS:
+        if not k64.get(key, (False,))[0]: continue
+        gv = os.path.join(vlib.COQ, 'Gen', key + '.v'); vop = os.path.join(vlib.COQ, vo)
+        built = os.path.exists(vop) and os.path.getmtime(vop) >= os.path.getmtime(gv)
+        chk.obligation('kernel theorem %s over regenerated %s' % (thm, key), built, log4[-3000:])
     # the 32-bit-limb scalar code: translated with USE_FORCE_WIDEMUL_INT64, proved, validated against the int64 build below
     k32 = regenerate(K32_FUNCS)
     for key, (ok, msg) in k32.items():
@@ -187,7 +208,7 @@ def kernel_obligations(chk):
         built = os.path.exists(vop) and os.path.getmtime(vop) >= os.path.getmtime(gv)
         chk.obligation('kernel theorem %s over regenerated %s' % (thm, key), built, log3[-3000:])
         if not built: search_failing_input(chk, thm)
-    chk.extra['translated_functions'] = dict({fn: msg for fn, (ok, msg) in res.items()}, **{k: m for k, (ok, m) in k32.items()})
+    chk.extra['translated_functions'] = dict({fn: msg for fn, (ok, msg) in res.items()}, **{k: m for k, (ok, m) in list(k32.items()) + list(k64.items())})
     chk.k32 = k32
     # translator validation: generated Gallina (extracted) vs the compiled C function
     try:
@@ -200,7 +221,7 @@ def kernel_obligations(chk):
     n = chk.scale(3000, 100000)
     for v in limb_cases(chk.rng, n, 10): cases.append(('fe_mul_inner_raw ' + ' '.join('#%d' % x for x in v), 'translator_validation_mul'))
     for v in limb_cases(chk.rng, n, 5): cases.append(('fe_sqr_inner_raw ' + ' '.join('#%d' % x for x in v), 'translator_validation_sqr'))
-    for fn, (ok, msg) in ctres.items():
+    for fn, (ok, msg) in list(ctres.items()) + [(k, v) for k, v in k64.items() if not k.startswith('k64_')]:
         short = fn.replace('secp256k1_', '')
         if not ok or short not in RAW_SHAPES: continue
         for i in range(chk.scale(400, 20000)):
